@@ -274,9 +274,9 @@ def instances(tier):
         base = [('single/public-s', {'composite': False, 's1': 'public', 's2': 's', 'selfref': False}),
                 ('composite/s-public', {'composite': True, 's1': 's', 's2': 'public', 'selfref': False}),
                 ('single/self', {'composite': False, 's1': 'public', 's2': 'public', 'selfref': True})]
-        if not quick:
-            base += [('composite/self-s', {'composite': True, 's1': 's', 's2': 's', 'selfref': True}),
-                     ('single/s-s', {'composite': False, 's1': 's', 's2': 's', 'selfref': False})]
+        # both tables in one non-public schema, and a self-reference inside such a schema (cheap: also in the quick tier)
+        base += [('composite/self-s', {'composite': True, 's1': 's', 's2': 's', 'selfref': True}),
+                 ('single/s-s', {'composite': False, 's1': 's', 's2': 's', 'selfref': False})]
         for nm, p in base:
             add(f'one/{kn}/{nm}/names/K{K}', 'one_ref', dict(p, kind=kind, K=K, mode='names'), T)
         add(f'one/{kn}/single/public-s/braces/K1', 'one_ref', dict(base[0][1], kind=kind, K=1, mode='names', braces=True), T)
